@@ -15,6 +15,7 @@ import (
 	"strconv"
 	"strings"
 	"syscall"
+	"time"
 
 	"github.com/bufbuild/buf/private/bufpkg/bufmodule"
 	"github.com/bufbuild/buf/private/bufpkg/bufmodule/bufmodulestore"
@@ -670,6 +671,55 @@ func c09FileClass(rel string) string {
 	return "other"
 }
 
+// ---- (e) crash of a writer that lost the race -----------------------------------------------
+//
+// Writer B passes the shared-lock check, releases the lock and is delayed at store.unlocked;
+// writer A stores the entry completely; B then proceeds and is SIGKILLed at its n-th hook hit.
+// Whatever B did before dying, the entry A completed must stay readable and correct, and a
+// later store must leave it readable and correct.
+func c09LostRace(c *core.C, mi int) {
+	s := c09Spec_(c.Seed, mi)
+	specJSON, _ := json.Marshal(s)
+	cache := filepath.Join(c.Tmp, "c09lostrace")
+	defer os.RemoveAll(cache)
+	child := func(env ...string) *exec.Cmd {
+		cmd := exec.Command(core.SelfExe(), "helper", "c09put", cache, "0", string(specJSON))
+		cmd.Env = append(os.Environ(), env...)
+		return cmd
+	}
+	os.RemoveAll(cache)
+	out, err := child().Output()
+	total, _ := strconv.Atoi(strings.TrimSpace(string(out)))
+	if err != nil || total == 0 {
+		c.Violation("fault-free-run-failed", fmt.Sprintf("lostrace module=%d", mi), fmt.Sprintf("store child failed: %v", err), nil)
+		return
+	}
+	step := 1
+	if !c.Thorough() && total > 14 {
+		step = (total + 13) / 14
+	}
+	for n := 2; n <= total; n += step {
+		os.RemoveAll(cache)
+		b := child("VERIF_SLEEP=store.unlocked:350000", fmt.Sprintf("VERIF_KILL=*:%d", n))
+		if err := b.Start(); err != nil {
+			continue
+		}
+		// give B time to reach store.unlocked, then let A run to completion while B sleeps
+		time.Sleep(120 * time.Millisecond)
+		aErr := child().Run()
+		b.Wait()
+		key := fmt.Sprintf("lostrace module=%d killB=*:%d", mi, n)
+		c.Count("lostrace_runs", 1)
+		c.Distinct("crash_points", fmt.Sprintf("lostrace/m%d/%d", mi, n))
+		o := c09Read(c, cache, false, s, key)
+		if aErr == nil && o.Kind != "found" {
+			c.Violation("entry-damaged-by-late-writer", key, fmt.Sprintf("writer A stored the entry successfully; after late writer B was killed the entry reads as %s (%s)", o.Kind, o.Detail), nil)
+		}
+		c09Repair(c, cache, false, s, key)
+	}
+	c.Nontrivial(fmt.Sprintf("lostrace module=%d files=%d hits=%d", mi, len(s.Files), total))
+}
+
 func c09NumModules(tier string) int {
 	if tier == "thorough" {
 		return 24
@@ -677,10 +727,23 @@ func c09NumModules(tier string) int {
 	return 6
 }
 
-func c09Cases(tier string) int { return c09NumModules(tier)*2*3 + c09HistCases(tier) }
+func c09LostRaceCases(tier string) int {
+	if tier == "thorough" {
+		return 12
+	}
+	return 4
+}
+
+func c09Cases(tier string) int {
+	return c09NumModules(tier)*2*3 + c09HistCases(tier) + c09LostRaceCases(tier)
+}
 
 func c09Run(c *core.C, idx int) {
 	n := c09NumModules(c.Tier) * 2 * 3
+	if idx >= n+c09HistCases(c.Tier) {
+		c09LostRace(c, idx-n-c09HistCases(c.Tier)+2)
+		return
+	}
 	if idx >= n {
 		c09Hist(c, idx-n, false)
 		return
@@ -718,7 +781,7 @@ func init() {
 		Run:         c09Run,
 		RaceCases:   func(tier string) int { return c09HistCases(tier) },
 		RunRace:     func(c *core.C, idx int) { c09Hist(c, idx, true) },
-		Required:    []string{"crash_runs", "kills_delivered", "faults_fired", "tamper_runs", "tamper_mismatch_required", "repairs_checked", "reads_found_correct", "reads_notfound", "reads_mismatch", "hist_histories"},
+		Required:    []string{"crash_runs", "kills_delivered", "faults_fired", "tamper_runs", "tamper_mismatch_required", "repairs_checked", "reads_found_correct", "reads_notfound", "reads_mismatch", "hist_histories", "lostrace_runs"},
 		WatchdogSec: map[string]int{"quick": 1500, "thorough": 3 * 3600},
 	})
 }
